@@ -87,6 +87,13 @@ static void linuxcpu_cb(struct hwloc_topology *t, int root_fd, int old_filenames
 }
 #endif
 
+/* The x86 backend is about to build objects from the per-PU information gathered by CPUID: print it for the model of
+ * summarize() (Topo/X86.v) */
+#ifdef HWLOC_VERIF
+extern void (*hwloc_verif_x86_cb)(struct hwloc_topology *topology, const char *line) __attribute__((weak));
+static void x86_cb(struct hwloc_topology *t, const char *line) { (void)t; printf("x86 %s\n", line); }
+#endif
+
 int main(void)
 {
   char *line = NULL; size_t cap = 0;
@@ -105,6 +112,7 @@ int main(void)
       hwloc_verif_phase_cb = atoi(line + 7) ? phase_cb : NULL;
       hwloc_verif_insert_cb = atoi(line + 7) == 2 ? insert_cb : atoi(line + 7) >= 3 ? insert_cb_light : NULL;   /* phases 2: trace every insertion by cpuset with the tree around it; 3: only the objects handed to the core */
       if (&hwloc_verif_linuxcpu_cb) hwloc_verif_linuxcpu_cb = atoi(line + 7) >= 2 ? linuxcpu_cb : NULL;   /* hook absent in older trees */
+      if (&hwloc_verif_x86_cb) hwloc_verif_x86_cb = atoi(line + 7) >= 2 ? x86_cb : NULL;
       printf("phases rc=0\n");
 #else
       printf("phases rc=-1\n");
